@@ -72,3 +72,41 @@ pub fn frame_json(f: &RawFrame, m: u32, off: usize) -> (J, usize) {
     let ok = matches(m, off, payload);
     (json!({"size": f.size, "doff": f.doff, "ftype": f.ftype, "ch": f.ch, "pb": &f.body[..pl], "off": off, "len": payload.len(), "pat": ok}), off + payload.len())
 }
+
+/// Length of one encoded AMQP value of the kinds that occur in message sections (None if unknown / truncated).
+pub fn value_len(b: &[u8]) -> Option<usize> {
+    let c = *b.first()?;
+    Some(match c {
+        0x00 => { let d = value_len(&b[1..])?; 1 + d + value_len(b.get(1 + d..)?)? }
+        0x40 | 0x41 | 0x42 | 0x43 | 0x44 | 0x45 => 1,
+        0x50 | 0x51 | 0x52 | 0x53 | 0x54 | 0x55 | 0x56 => 2,
+        0x60 | 0x61 => 3,
+        0x70 | 0x71 | 0x72 | 0x73 | 0x74 => 5,
+        0x80 | 0x81 | 0x82 | 0x83 | 0x84 => 9,
+        0x94 | 0x98 => 17,
+        0xa0 | 0xa1 | 0xa3 | 0xc0 | 0xc1 | 0xe0 => 2 + *b.get(1)? as usize,
+        0xb0 | 0xb1 | 0xb3 | 0xd0 | 0xd1 | 0xf0 => 5 + u32::from_be_bytes(b.get(1..5)?.try_into().ok()?) as usize,
+        _ => return None,
+    })
+}
+/// The message-id (ulong) of the message whose encoding starts with `payload` (first frame of a delivery).
+pub fn message_id_of(payload: &[u8]) -> Option<u64> {
+    let mut p = 0;
+    loop {
+        let b = payload.get(p..)?;
+        if b.len() < 3 || b[0] != 0x00 || b[1] != 0x53 { return None; }
+        if b[2] == 0x73 {
+            // properties: described list; first field is the message-id
+            let body = b.get(3..)?;
+            let items = match *body.first()? { 0xc0 => body.get(3..)?, 0xd0 => body.get(9..)?, _ => return None };
+            return match *items.first()? {
+                0x44 => Some(0),
+                0x53 => Some(*items.get(1)? as u64),
+                0x80 => Some(u64::from_be_bytes(items.get(1..9)?.try_into().ok()?)),
+                _ => None,
+            };
+        }
+        if b[2] > 0x73 { return None; }
+        p += 3 + value_len(b.get(3..)?)?;
+    }
+}
